@@ -438,6 +438,131 @@ def r3_7(F, R):
         R.violation("R3.7", "start_new_line/constants", "start_new_line compares source characters with %s; TeX's rule only distinguishes ' ' (32) and the newline (10)" % sorted(consts), loc)
 
 
+CHARISH = ("char", "core::option::Option<char>", "&char", "&core::option::Option<char>", "&mut char", "&mut core::option::Option<char>")
+# what the scanner may do with a source character besides moving it around and testing an Option for Some/None
+CHAR_SINKS = ("alloc::string::String::push", "core::char::methods::<impl char>::len_utf8", "texlang::token::lexer::Config::cat_code",
+              "texlang::token::lexer::RawLexer::maybe_apply_caret_notation",
+              # presence-preserving adaptors; the closure they run is analysed as part of the scanner
+              "core::option::Option::map", "core::option::Option::and_then", "core::option::Option::is_some", "core::option::Option::is_none") + tuple("texlang::token::" + c for c in TOKEN_CTORS)
+
+
+def _scanner_fns(F):
+    names = ["texlang::token::lexer::Lexer::next", "texlang::token::lexer::Lexer::read_control_sequence",
+             "texlang::token::lexer::RawLexer::next", "texlang::token::lexer::RawLexer::peek"]
+    out = [_one(F, n) for n in names]
+    # closures defined inside them
+    for f in F.fns.values():
+        if any(f.name.startswith(n + "::{closure") for n in names):
+            out.append(f)
+    return out
+
+
+def r3_8(F, R):
+    R.rule("R3.8", "the scanner classifies characters by category code only (TeX §§343-355: every decision of get_next is on cat_code(c), "
+                   "never on c): in Lexer::next, read_control_sequence, RawLexer::next and RawLexer::peek a source character is only moved, "
+                   "wrapped, tested for presence (Some/None), or passed to cat_code / len_utf8 / String::push / a Token constructor / the ^^ "
+                   "reducer; it is never compared, cast, matched on or handed to another predicate")
+    n = 0
+    for fn in _scanner_fns(F):
+        ch = {i for i, (ty, nm) in enumerate(fn.locals) if ty in CHARISH}
+        bad = []
+
+        def is_ch(o):
+            p = op_place(o)
+            return p is not None and p["l"] in ch and not any(isinstance(e, dict) and "f" in e for e in p["p"][:0])
+
+        for bi, b in enumerate(fn.blocks):
+            for st in b["s"]:
+                if st["k"] != "=":
+                    continue
+                rv = st["rv"]
+                if rv["k"] == "bin" and (is_ch(rv["a"]) or is_ch(rv["b"])):
+                    bad.append(("%s" % rv["op"], fn.loc(st)))
+                elif rv["k"] == "cast" and is_ch(rv["op"]) and fn.local_ty(st["lhs"]["l"]) not in CHARISH:
+                    bad.append(("cast to %s" % fn.local_ty(st["lhs"]["l"]), fn.loc(st)))
+                elif rv["k"] == "un" and is_ch(rv["a"]):
+                    bad.append((rv["op"], fn.loc(st)))
+            t = b["t"]
+            if t["k"] == "switch":
+                p = op_place(t["op"])
+                if p is not None and not p["p"] and fn.local_ty(p["l"]) == "char":
+                    bad.append(("match on the character", fn.loc(t)))
+            if t["k"] == "call":
+                cn = strip_generics(callee_name(t) or "")
+                for a in t["args"]:
+                    if is_ch(a):
+                        n += 1
+                        g = strip_generics((t.get("callee") or {}).get("fn") or "")
+                        if cn not in CHAR_SINKS and g not in CHAR_SINKS:
+                            bad.append((cn.split("::")[-1] + "()", fn.loc(t)))
+                        break
+        inst = fn.name.replace("texlang::token::lexer::", "")
+        if bad:
+            for what, l in bad:
+                R.violation("R3.8", inst + "/" + what, "%s decides on a source character with `%s`: the token stream then depends on the character code, "
+                            "not on its category, and differs from TeX under a non-default \\catcode assignment" % (inst, what), l)
+        else:
+            R.ok("R3.8", inst, "characters only moved, presence-tested or passed to the %d accepted sinks" % len(CHAR_SINKS), "%s:%d" % (fn.file, fn.line), how="use-set")
+    R.floor("R3.8", "character-consuming calls in the scanner", n, 20)
+    # who may read the raw cursor: next_char bypasses classification
+    nc = _one(F, "texlang::token::lexer::RawLexer::next_char")
+    callers = set()
+    for f in F.fns.values():
+        for bi, t in f.calls():
+            c = t.get("callee") or {}
+            if c.get("id") == nc.id or c.get("rid") == nc.id:
+                callers.add(strip_generics(f.name))
+    extra = {c for c in callers if not c.startswith("texlang::token::lexer::RawLexer::")}
+    if extra:
+        R.violation("R3.8", "next_char/callers", "RawLexer::next_char (the unclassified cursor read) is called from %s; only RawLexer's own methods, which attach "
+                    "the category code, may read it" % sorted(extra), "%s:%d" % (nc.file, nc.line))
+    else:
+        R.ok("R3.8", "next_char/callers", sorted(callers), "%s:%d" % (nc.file, nc.line), how="who-may-call")
+
+
+def r3_9(F, R):
+    R.rule("R3.9", "trace keys are demanded only for characters that exist (the tracer hands out len+1 keys; KeyRange::next/peek panic past the "
+                   "limit): every KeyRange::next / KeyRange::peek call in the lexer is dominated by the Some arm of an Option<char> test or by a "
+                   "successful Option<char>::unwrap, or sits in a closure that receives the character")
+    n = 0
+    for fn in F.fns.values():
+        if not fn.name.startswith("texlang::token::lexer::") or "::tests::" in fn.name:
+            continue
+        sites = [(bi, t) for bi, t in fn.calls()
+                 if strip_generics(callee_name(t) or "") in ("texlang::token::trace::KeyRange::next", "texlang::token::trace::KeyRange::peek")]
+        if not sites:
+            continue
+        dom = dominators(fn)
+        witness = set()
+        for bi, b in enumerate(fn.blocks):
+            t = b["t"]
+            if t["k"] == "switch":
+                # discriminant of an Option<char>
+                p = op_place(t["op"])
+                d = Defs(fn).single(p["l"]) if p is not None and not p["p"] else None
+                if d and d[0] == "st" and d[3]["k"] == "=" and d[3]["rv"]["k"] == "discr":
+                    pl = d[3]["rv"]["pl"]
+                    ty = fn.local_ty(pl["l"]) if not pl["p"] else ""
+                    if ty == "core::option::Option<char>":
+                        for v, tb in t["ts"]:
+                            if v == 1:
+                                witness.add(tb)
+            if t["k"] == "call" and strip_generics(callee_name(t) or "").endswith("Option::unwrap") and t["args"]:
+                p = op_place(t["args"][0])
+                if p is not None and not p["p"] and fn.local_ty(p["l"]) == "core::option::Option<char>" and t.get("t") is not None:
+                    witness.add(t["t"])
+        in_char_closure = "{closure" in fn.name and any(fn.local_ty(i) == "char" for i in range(1, fn.argc + 1))
+        for bi, t in sites:
+            n += 1
+            inst = "%s/%s" % (fn.name.replace("texlang::token::lexer::", ""), strip_generics(callee_name(t)).split("::")[-1])
+            if in_char_closure or any(w in dom[bi] for w in witness):
+                R.ok("R3.9", inst, "dominated by a character-present test", fn.loc(t), how="dominator")
+            else:
+                R.violation("R3.9", inst, "%s takes a trace key on a path where no character is known to remain: at the end of the last line the range is "
+                            "exhausted and KeyRange panics (`requested more trace keys than are in the range`)" % fn.name, fn.loc(t))
+    R.floor("R3.9", "trace key demands", n, 3)
+
+
 def _one(F, name, exact=True):
     c = [f for f in F.fns.values() if strip_generics(f.name) == strip_generics(name)]
     if len(c) != 1:
@@ -453,6 +578,8 @@ def run(F, R, tier):
     r3_5(F, R)
     r3_6(F, R)
     r3_7(F, R)
+    r3_8(F, R)
+    r3_9(F, R)
     R.extra["exhaustive"] = True
     return ("Static analysis: finite-domain specialisation of Lexer::next over all 16x3 (category, state) cells, of read_control_sequence over "
             "16 categories and of CatCode::try_from over 256 bytes, compared with tables transcribed from TeX: The Program §§207,343-355; "
